@@ -28,7 +28,7 @@ META = {
               "freeze; data_width/granularity ratios 1,2,4 and the non-powers-of-two 3,5,6",
     "outside": "more than 4 registers; widths above 4 bus words; acceptance completeness (legal layouts being refused) "
                "is not part of the statement",
-    "assumptions": ["isinstance/range rebound for amaranth_soc.memory and amaranth_soc.csr.reg",
+    "assumptions": ["isinstance/range/int rebound for amaranth_soc.memory and amaranth_soc.csr.reg",
                     "a zero-width register occupies one address"],
     "rule": "one evaluation = one solver query; distinct_nontrivial = feasible paths passing the preconditions",
 }
